@@ -250,21 +250,23 @@ Qed.
 (* ---- invariant of the connection *)
 Definition st_ok (st : conn) : Prop := Forall (fun b => b < 256) (buf st) /\ Forall frame_ok (out st).
 
-Lemma frames_ok : forall ms, forallb gmsg ms = true -> Forall frame_ok (rev (frames ms)).
+Lemma sent_ok : forall ms, forallb gmsg ms = true -> Forall frame_ok (rev (fst (send_seq ms))).
 Proof.
-  intros ms H. apply Forall_rev. unfold frames. apply Forall_forall. intros f Hin.
-  apply in_map_iff in Hin. destruct Hin as [m [Hm Hin]]. subst f. apply encode_frame_ok.
-  rewrite forallb_forall in H. apply H. exact Hin.
+  intros ms H. apply Forall_rev. apply Forall_forall. intros f Hin.
+  destruct (send_seq_sent _ _ Hin) as [m [A [_ C]]]. subst f. apply encode_frame_ok.
+  rewrite forallb_forall in H. apply H. exact A.
 Qed.
 
 Lemma process_ok : forall st line, st_ok st -> byte_line line -> st_ok (process E st line).
 Proof.
   intros st line [HB HO] HL. pose proof (answer_good (nline st) line HL) as HG.
   unfold process. destruct (answer E (nline st) line) as [o c]. simpl in HG.
-  destruct o as [pre r|pre]; split; simpl; try exact HB.
-  - destruct HG as [G1 G2]. apply Forall_app. split; [|exact HO]. apply frames_ok.
-    rewrite forallb_app, G1. simpl. rewrite G2. reflexivity.
-  - apply Forall_app. split; [|exact HO]. apply frames_ok. exact HG.
+  destruct o as [pre r|pre].
+  - destruct HG as [G1 G2].
+    assert (G : forallb gmsg (pre ++ [r]) = true) by (rewrite forallb_app, G1; simpl; rewrite G2; reflexivity).
+    pose proof (sent_ok _ G) as S. destruct (send_seq (pre ++ [r])) as [fs ok]. split; simpl in *; [exact HB|].
+    apply Forall_app. split; assumption.
+  - split; simpl; [exact HB|]. apply Forall_app. split; [apply sent_ok; exact HG|exact HO].
 Qed.
 
 Lemma drain_ok : forall n st, st_ok st -> st_ok (drain n E st).
@@ -285,7 +287,7 @@ Proof.
   intros st [b|m] [HB HO] Hev; simpl in *.
   - unfold feed. destruct (alive st); [|split; assumption]. apply drain_ok. split; simpl; [|exact HO].
     apply Forall_app. split; assumption.
-  - unfold push. destruct (alive st); [|split; assumption]. split; simpl; [exact HB|].
+  - unfold push. destruct (alive st && encodable m); [|split; assumption]. split; simpl; [exact HB|].
     constructor; [apply encode_frame_ok; exact Hev|exact HO].
 Qed.
 
